@@ -104,7 +104,7 @@ class Scen:
         # the batch dictionaries are handed over exactly as written (insertion order kept: no pytree round trip)
         obd = {"pinn_in": a["oin"], "val": a["oval"], "eq_params": obs_eq or {}} if "observations" in on else None
         if kind == "ODE":
-            loss = LossODE(u=self.net.u, dynamic_loss=dyn,
+            loss = mk_loss(LossODE, u=self.net.u, dynamic_loss=dyn,
                            loss_weights=LossWeightsODE(dyn_loss=a["wd"], initial_condition=a["wi"], observations=a["wo"]),
                            initial_condition=(a["t0"], a["u0"]) if "initial_condition" in on else None, **dk)
             batch = ODEBatch(temporal_batch=a["pts"], param_batch_dict=param_batch, obs_batch_dict=obd)
@@ -117,14 +117,14 @@ class Scen:
                 common.update(omega_boundary_condition="dirichlet",
                               omega_boundary_fun=(lambda x: fb(x)) if kind == "statio" else (lambda t, x: fb(jnp.concatenate([t, x]))))
             if kind == "statio":
-                loss = LossPDEStatio(loss_weights=LossWeightsPDEStatio(dyn_loss=a["wd"], norm_loss=a["wn"],
+                loss = mk_loss(LossPDEStatio, loss_weights=LossWeightsPDEStatio(dyn_loss=a["wd"], norm_loss=a["wn"],
                                                                        boundary_loss=a["wb"], observations=a["wo"]), **common)
                 batch = PDEStatioBatch(inside_batch=a["pts"], border_batch=a["bb"] if "boundary_loss" in on else None,
                                        param_batch_dict=param_batch, obs_batch_dict=obd)
             else:
                 if "initial_condition" in on:
                     common.update(initial_condition_fun=lambda x: fic(x))
-                loss = LossPDENonStatio(loss_weights=LossWeightsPDENonStatio(
+                loss = mk_loss(LossPDENonStatio, loss_weights=LossWeightsPDENonStatio(
                     dyn_loss=a["wd"], norm_loss=a["wn"], boundary_loss=a["wb"], observations=a["wo"],
                     initial_condition=a["wi"]), **common)
                 batch = PDENonStatioBatch(times_x_inside_batch=a["pts"],
